@@ -978,6 +978,8 @@ INVALID = [
     ('keyword-in-expression', ['a = if\n', 'a + while\n', 'f(def)\n', '[for]\n', 'x = class\n', 'a = 1 + pass\n', 'return = 1\n', 'a.if\n', 'a = not\n', 'a = b if c\n', 'x = lambda\n']),
     ('keyword-as-identifier', ['def if(): pass\n', 'class for: pass\n', 'import while\n', 'from a import in\n', 'for if in x: pass\n', 'def f(else): pass\n', 'global with\n', 'a = 1 as b\n', 'lambda None: 1\n', 'def f(True): pass\n', 'None = 1\n', 'True += 1\n', 'del False\n']),
     ('unbalanced-bracket', ['(a\n', 'a)\n', '[a\n', 'a]\n', '{a\n', 'a}\n', '(a]\n', '[a)\n', '{a)\n', 'f(a, (b)\n', 'x = (1,\n', '((a)\n', 'a[1:2\n', '{1: 2\n']),
+    ('tabs-vs-spaces', ['if a:\n        b\n\tc\n', 'if a:\n\tb\n        c\n', 'if a:\n  if b:\n\tc\n  d\n', 'if a:\n    b\n  \tc\n', 'def f():\n\tif a:\n\t\tb\n        c\n',
+                        'while a:\n \tb\n\t c\n', 'if a:\n\tb\nelse:\n        c\n\td\n', 'class C:\n        x = 1\n\tdef f(self):\n\t\tpass\n', 'for a in b:\n\t\tc\n\t        d\n']),
     ('bad-indentation', ['if a:\npass\n', 'if a:\n    pass\n  pass\n', ' a\n', 'a\n  b\n', 'if a:\n        pass\n    pass\n  x\n', 'def f():\n    a\n      b\n', 'class C:\n  x\n y\n', 'if a:\n\tpass\n        pass\n  pass\n']),
     ('malformed-number', ['0777\n', '0b2\n', '0o8\n', '0x\n', '0xg\n', '1e\n', '1e+\n', '0b\n', '0o\n', '1__0\n'.replace('__', 'a'), '01\n', '09.5j'.replace('.5j', 'x') + '\n', '1.2.3\n', '0x1.5\n', '1_000\n', '0_1\n', '1e5e5\n', '12abc\n', '1.5j5\n']),
     ('malformed-string', ["'abc\n", '"abc\n', "'''abc\n", "'\\x4'\n", "'\\xZZ'\n", "'\\u12'\n", "'\\U0000004'\n", "'\\N{BOGUS NAME XYZ}'\n", "'\\N{'\n", "'\\N'\n", "b'\u00e9'\n", "b'\u20ac'\n", "'a' b'b'\n", "b'a' 'b'\n", "ur'a'\n", "bu'a'\n", "'\\U00110000'\n", "b'\\x4'\n", "'abc\\"]),
